@@ -949,7 +949,12 @@ fn replace_tilde_or_at_in_expr(input: &TokenStream, at_tokens: Option<&TokenStre
                     proc_macro2::Delimiter::Parenthesis => quote!(( #inner )),
                     proc_macro2::Delimiter::Brace => quote!({ #inner }),
                     proc_macro2::Delimiter::Bracket => quote!([ #inner ]),
-                    proc_macro2::Delimiter::None => quote!(#inner),
+                    proc_macro2::Delimiter::None => {
+                        // keep invisible delimiters (e.g. a `$e:expr` macro fragment): flattening them changes operator precedence
+                        let mut new_group = proc_macro2::Group::new(proc_macro2::Delimiter::None, inner);
+                        new_group.set_span(group.span());
+                        quote!(#new_group)
+                    },
                 }
             }
             proc_macro2::TokenTree::Punct(punct) => {
